@@ -183,7 +183,7 @@ def one_case(args):
     argv = ([] if pipe else [path]) + ([] if mode == ["WRITER"] else mode) + opts
     N = int(opts[opts.index("-E") + 1]) if "-E" in opts else None
     env = {"RUST_BACKTRACE": "1", "ASAN_OPTIONS": "halt_on_error=1:detect_leaks=0:abort_on_error=1"}
-    r = obs.run(exe, argv, stdin_path=path if pipe else None, workdir=wd, timeout=90 if isinstance(exe, str) else 600, env=env, tag="c%d" % case)
+    r = obs.run(exe, argv, stdin_path=path if pipe else None, workdir=wd, timeout=90 if isinstance(exe, str) else 600, env=env, tag="c%d" % case, allow_timeout=True)
     if not isinstance(exe, str) and r.rc == 99:      # valgrind --error-exitcode
         d = save_replay("C04", "case%d" % case, {"input.raw": data, "stderr.txt": r.stderr}, dict(seed=seed, case=case, argv=argv, pipe=pipe, source=src))
         out["viol"] = ("memcheck:" + (re.search(r"== (Invalid \w+|Conditional jump|Use of uninitialised|Syscall param[^\n]*)", r.stderr) or [None, "error"])[1][:40],
